@@ -46,14 +46,31 @@ def _init_re():
     if RE_WS is None:
         RE_WS = re_of_chars(WHITESPACE)
         RE_BREAK = re_of_chars(LINE_BREAKS)
+        # built exactly like builtins_._parse_regex builds '[a-zA-Z_][a-zA-Z0-9_]*' so that the library's own
+        # validation and the ghost predicate are the same term
         alpha = z3.Union(z3.Range(zstr('a'), zstr('z')), z3.Range(zstr('A'), zstr('Z')), z3.Re(zstr('_')))
-        alnum = z3.Union(alpha, z3.Range(zstr('0'), zstr('9')))
+        alnum = z3.Union(z3.Range(zstr('a'), zstr('z')), z3.Range(zstr('A'), zstr('Z')),
+                         z3.Range(zstr('0'), zstr('9')), z3.Re(zstr('_')))
         RE_IDENT = z3.Concat(alpha, z3.Star(alnum))
 
 
-def is_ident(zs):
+P_IDENT = z3.Function('py.is_ident', z3.StringSort(), z3.BoolSort())      # matches [a-zA-Z_][a-zA-Z0-9_]*
+REGEX_USED = [False]     # set when the code under analysis applies a regular expression other than the identifier one
+
+
+def is_ident(zs, path=None):
+    """zs is an identifier.  An uninterpreted predicate with cheap consequences as lemma instances; its regular
+    expression definition is only given to the solver when the analysed code uses some other regular expression."""
     _init_re()
-    return z3.InRe(zs, RE_IDENT)
+    if z3.is_string_value(zs):
+        import re
+        return z3.BoolVal(re.fullmatch('[a-zA-Z_][a-zA-Z0-9_]*', _unescape(zs.as_string())) is not None)
+    return _attach(path, _raw(P_IDENT, zs))
+
+
+def ident_regex():
+    _init_re()
+    return RE_IDENT
 
 
 # Character-class predicates are uninterpreted functions; the engine adds the lemma instances below
@@ -65,24 +82,87 @@ P_NO_BREAK = z3.Function('py.no_break', z3.StringSort(), z3.BoolSort())   # no s
 P_BREAK_CHAR = z3.Function('py.break_char', z3.StringSort(), z3.BoolSort())
 
 
-def no_break(zs):
+_KIDS = []     # predicate applications created while building lemmas (collected by _lemma_closure)
+
+
+def _raw(pred, zs):
+    app = pred(zs)
+    _KIDS.append(app)
+    return app
+
+
+def _attach(path, app):
+    """give the lemma instances of a predicate application (and of the applications they mention) to the path"""
+    if path is None or not z3.is_app(app) or app.decl().kind() != z3.Z3_OP_UNINTERPRETED:
+        return app
+    done = path.pred_done
+    if app.get_id() in done:
+        return app
+    for f in lemma_closure(app, done):
+        path.define(f)
+    return app
+
+
+def lemma_closure(app, done=None, depth=3):
+    """lemma instances for `app` and, transitively (bounded), for the predicate applications inside them"""
+    done = set() if done is None else done
+    out = []
+    level = [app]
+    for _ in range(depth):
+        nxt = []
+        for a in level:
+            if a.get_id() in done:
+                continue
+            done.add(a.get_id())
+            key = (a.get_id(), REGEX_USED[0])
+            hit = _LEMMA_CACHE.get(key)
+            if hit is None:
+                del _KIDS[:]
+                fresh = []
+                _lemmas_for(a, fresh)
+                hit = (a, fresh, list(_KIDS))
+                _LEMMA_CACHE[key] = hit
+            out.extend(hit[1])
+            nxt.extend(hit[2])
+        level = nxt
+        if not level:
+            break
+    return out
+
+
+def with_facts(app):
+    """app together with its lemma instances, for use inside hypothesis bodies (instantiated later)"""
+    if not z3.is_app(app) or z3.is_true(app) or z3.is_false(app):
+        return app
+    ls = lemma_closure(app, set(), depth=2)
+    return z3.And(app, *ls) if ls else app
+
+
+def no_break(zs, path=None):
     """zs contains no line boundary character."""
     if z3.is_string_value(zs):
         return z3.BoolVal(not any(c in LINE_BREAKS for c in _unescape(zs.as_string())))
-    return P_NO_BREAK(zs)
+    return _attach(path, _raw(P_NO_BREAK, zs))
 
 
-def all_ws(zs):
+def all_ws(zs, path=None):
     if z3.is_string_value(zs):
         return z3.BoolVal(_unescape(zs.as_string()).strip() == '')
-    return P_ALL_WS(zs)
+    return _attach(path, _raw(P_ALL_WS, zs))
 
 
-def ws_char(zs):
+def ws_char(zs, path=None):
     if z3.is_string_value(zs):
         v = _unescape(zs.as_string())
         return z3.BoolVal(len(v) == 1 and v in WHITESPACE)
-    return P_WS_CHAR(zs)
+    return _attach(path, _raw(P_WS_CHAR, zs))
+
+
+def break_char(zs, path=None):
+    if z3.is_string_value(zs):
+        v = _unescape(zs.as_string())
+        return z3.BoolVal(len(v) == 1 and v in LINE_BREAKS)
+    return _attach(path, _raw(P_BREAK_CHAR, zs))
 
 
 def first_char(zs):
@@ -93,65 +173,40 @@ def last_char(zs):
     return z3.SubString(zs, z3.Length(zs) - 1, 1)
 
 
-def theory_lemmas(exprs, done):
-    """Lemma instances for the character-class predicates occurring in `exprs` (list of z3 Bool).
-    `done` is a set of term ids already treated.  Returns new lemmas (sound facts about CPython strings)."""
-    out = []
-    work = list(exprs)
-    seen = set()
-    apps = []
-    while work:
-        e = work.pop()
-        if e.get_id() in seen:
-            continue
-        seen.add(e.get_id())
-        if z3.is_app(e):
-            d = e.decl()
-            if d.kind() == z3.Z3_OP_UNINTERPRETED and d.name() in ('py.all_ws', 'py.ws_char', 'py.no_break',
-                                                                   'py.break_char'):
-                apps.append(e)
-            work.extend(e.children())
-        elif z3.is_quantifier(e):
-            work.append(e.body())
-    for a in apps:
-        if a.get_id() in done:
-            continue
-        done.add(a.get_id())
-        name = a.decl().name()
-        t = a.arg(0)
-        if name in ('py.ws_char', 'py.break_char'):
-            chars = WHITESPACE if name == 'py.ws_char' else LINE_BREAKS
-            if z3.is_string_value(t):
-                v = _unescape(t.as_string())
-                out.append(a == z3.BoolVal(len(v) == 1 and v in chars))
-            else:
-                out.append(a == z3.Or(*[t == zstr(c) for c in chars]))
-            continue
-        pred, charp = (P_ALL_WS, P_WS_CHAR) if name == 'py.all_ws' else (P_NO_BREAK, None)
-        if z3.is_string_value(t):
-            v = _unescape(t.as_string())
-            out.append(a == z3.BoolVal(v.strip() == '' if name == 'py.all_ws'
-                                       else not any(c in LINE_BREAKS for c in v)))
-            continue
-        if z3.is_app(t) and t.decl().kind() == z3.Z3_OP_SEQ_CONCAT:
-            out.append(a == z3.And(*[pred(c) if not z3.is_string_value(c) else
-                                     (all_ws(c) if name == 'py.all_ws' else no_break(c)) for c in t.children()]))
-        if z3.is_app(t) and t.decl().kind() == z3.Z3_OP_ITE:
-            c, x, y = t.children()
-            out.append(a == z3.If(c, pred(x) if not z3.is_string_value(x) else
-                                  (all_ws(x) if name == 'py.all_ws' else no_break(x)),
-                                  pred(y) if not z3.is_string_value(y) else
-                                  (all_ws(y) if name == 'py.all_ws' else no_break(y))))
-        out.append(z3.Implies(z3.Length(t) == 0, a))
-        if name == 'py.all_ws':
-            out.append(z3.Implies(z3.And(a, z3.Length(t) > 0),
-                                  z3.And(P_WS_CHAR(first_char(t)), P_WS_CHAR(last_char(t)))))
-            out.append(z3.Implies(z3.Length(t) == 1, a == P_WS_CHAR(t)))
-        else:
-            out.append(z3.Implies(z3.And(a, z3.Length(t) > 0),
-                                  z3.And(z3.Not(P_BREAK_CHAR(first_char(t))), z3.Not(P_BREAK_CHAR(last_char(t))))))
-            out.append(z3.Implies(z3.Length(t) == 1, a == z3.Not(P_BREAK_CHAR(t))))
-    return out
+_LEMMA_CACHE = {}      # (application id, regex flag) -> (application kept alive, lemmas, applications inside)
+
+
+def _lemmas_for(a, out):
+    name = a.decl().name()
+    t = a.arg(0)
+    if name == 'py.is_ident':
+        # consequences of being an identifier that the proofs use (all cheap string facts)
+        out.append(z3.Implies(a, z3.And(z3.Length(t) > 0,
+                                        z3.Not(z3.Contains(t, zstr('.'))), z3.Not(z3.Contains(t, zstr(':'))),
+                                        z3.Not(z3.Contains(t, zstr(' '))), z3.Not(z3.Contains(t, zstr('\n'))),
+                                        no_break(t), z3.Not(all_ws(t)),
+                                        z3.Not(ws_char(first_char(t))))))
+        if REGEX_USED[0]:
+            out.append(a == z3.InRe(t, ident_regex()))
+        return
+    if name in ('py.ws_char', 'py.break_char'):
+        chars = WHITESPACE if name == 'py.ws_char' else LINE_BREAKS
+        out.append(a == z3.Or(*[t == zstr(c) for c in chars]))
+        return
+    pred = all_ws if name == 'py.all_ws' else no_break
+    if z3.is_app(t) and t.decl().kind() == z3.Z3_OP_SEQ_CONCAT:
+        out.append(a == z3.And(*[pred(c) for c in t.children()]))
+    if z3.is_app(t) and t.decl().kind() == z3.Z3_OP_ITE:
+        c, x, y = t.children()
+        out.append(a == z3.If(c, pred(x), pred(y)))
+    out.append(z3.Implies(z3.Length(t) == 0, a))
+    if name == 'py.all_ws':
+        out.append(z3.Implies(z3.And(a, z3.Length(t) > 0), z3.And(ws_char(first_char(t)), ws_char(last_char(t)))))
+        out.append(z3.Implies(z3.Length(t) == 1, a == ws_char(t)))
+    else:
+        out.append(z3.Implies(z3.And(a, z3.Length(t) > 0),
+                              z3.And(z3.Not(break_char(first_char(t))), z3.Not(break_char(last_char(t))))))
+        out.append(z3.Implies(z3.Length(t) == 1, a == z3.Not(break_char(t))))
 
 
 def mkstr(parts):
@@ -319,8 +374,36 @@ def mkseq(blocks):
             elif isinstance(x, CompB):
                 if not x.body.blocks:
                     continue
+                if isinstance(x.base, RangeB):
+                    lo, hi = _int_of(x.base.lo), _int_of(x.base.hi)
+                    if lo is not None and hi is not None and hi - lo <= 8:
+                        unrolled = []
+                        for k in range(lo, hi):
+                            g = True if x.guard is True else z3.simplify(z3.substitute(x.guard, (x.var, z3.IntVal(k))))
+                            body = subst(x.body, [(x.var, z3.IntVal(k))])
+                            if g is True or z3.is_true(g):
+                                unrolled.extend(body.blocks)
+                            elif z3.is_false(g):
+                                continue
+                            else:
+                                unrolled.append(GuardB(g, body))
+                        out2 = mkseq(list(out) + unrolled)
+                        out = list(out2.blocks)
+                        continue
             out.append(x)
     return SeqT(out)
+
+
+def _int_of(v):
+    if isinstance(v, bool):
+        return None
+    if isinstance(v, int):
+        return v
+    if is_z3(v):
+        w = z3.simplify(v)
+        if z3.is_int_value(w):
+            return w.as_long()
+    return None
 
 
 def subst(v, pairs):
@@ -377,6 +460,30 @@ def subst_block(b, pairs):
         guard = b.guard if b.guard is True else z3.substitute(b.guard, *pairs)
         return CompB(var, base, guard, subst(b.body, pairs), b.elem_cls)
     return b
+
+
+def subseq(z, lo, n):
+    """seq.extract with the identity  extract(extract(s,0,a),0,b) == extract(s,0,min(a,b))  applied at
+    construction (holds for all integers a, b under z3's semantics of extract; z3's sequence solver does not
+    find it by itself within any reasonable budget - measured)"""
+    lo = lo if is_z3(lo) else z3.IntVal(lo)
+    n = n if is_z3(n) else z3.IntVal(n)
+    if z3.is_app(z) and z.decl().kind() == z3.Z3_OP_SEQ_EXTRACT and z3.is_int_value(lo) and lo.as_long() == 0:
+        s0, lo0, a = z.children()
+        if z3.is_int_value(lo0) and lo0.as_long() == 0:
+            return z3.SubSeq(s0, z3.IntVal(0), z3.If(n <= a, n, a))
+    return z3.SubSeq(z, lo, n)
+
+
+def nth(base, idx):
+    """base[idx] for an index that is in range of `base`;  extract(s, lo, n)[i]  is written  s[lo + i]
+    (equal whenever 0 <= i < len(extract(s, lo, n)), which every use guarantees)"""
+    if z3.is_app(base) and base.decl().kind() == z3.Z3_OP_SEQ_EXTRACT:
+        s0, lo, n = base.children()
+        if z3.is_int_value(lo) and lo.as_long() == 0:
+            return nth(s0, idx)
+        return nth(s0, lo + idx)
+    return base[idx]
 
 
 def base_len(base):
